@@ -512,6 +512,11 @@ func runShare(t *testing.T, tk []string) string {
 				continue
 			}
 			emptyPolls = 0
+			// leave with the records of the last poll undecided: Close has to release them
+			if (winding && mr.Chance(30)) || (maxPolls > 0 && polls == maxPolls-1 && mr.Bool()) {
+				hx.St.Inc("share.close-with-undecided-records")
+				break
+			}
 			if !winding && mr.Intn(100) < slowpct { // processing longer than the acquisition lock
 				hx.St.Inc("share.slow-processing")
 				time.Sleep(time.Duration(lockms+lockms/2) * time.Millisecond)
